@@ -74,6 +74,69 @@ SynsetExamplesOK(T, li, A, o) ==
   {<<r[2], r[3], r[4]>> : r \in Mine(A.ayex, o)}
      = {<<SynsetId(T, li, r[2]), r[3], r[4]>> : r \in Of(T.yex, li)}
 Cl(ok, name) == IF ok THEN {} ELSE {name}
+(* ---- a base lexicon seen together with its extension (r.xli, r.xapi) ---------- *)
+\* written form of form fi of word wid as observed
+FormStr(A, o, wid, fi) == (CHOOSE f \in Mine(A.aform, o) : f[2] = wid /\ f[3] = fi)[4]
+\* tags / pronunciations of the forms of base words, by written form
+ObsTags(A, o) == {<<r[2], FormStr(A, o, r[2], r[3]), r[5], r[6]>> : r \in Mine(A.atag, o)}
+ObsProns(A, o) == {<<r[2], FormStr(A, o, r[2], r[3]), r[5], r[6], r[7], r[8], r[9]>> : r \in Mine(A.apron, o)}
+\* written form of a form row of the base document: lemma (fi = 0) or further form
+DocFormStr(T, li, ei, fi) ==
+  IF fi = 0 THEN (CHOOSE e \in Of(T.entry, li) : e[2] = ei)[7]
+  ELSE (CHOOSE f \in Of(T.form, li) : f[2] = ei /\ f[3] = fi)[6]
+\* the base entry / base form that an external entry / form of the extension names
+BaseEi(T, li, xi, xei) == (CHOOSE e \in Of(T.entry, li) : e[3] = EntryId(T, xi, xei))[2]
+\* where a tag / pronunciation row of the extension lands: on the base lemma
+\* (ExternalLemma), on the base form with that id (ExternalForm), or on a form
+\* the extension itself adds to the external entry
+ExtTarget(T, li, xi, xei, xfi) ==
+  LET e == CHOOSE e \in Of(T.entry, xi) : e[2] = xei IN
+  IF xfi = 0 THEN <<e[3], DocFormStr(T, li, BaseEi(T, li, xi, xei), 0)>>
+  ELSE LET f == CHOOSE f \in Of(T.form, xi) : f[2] = xei /\ f[3] = xfi IN
+         IF f[4] THEN <<e[3], (CHOOSE b \in Of(T.form, li) : b[2] = BaseEi(T, li, xi, xei) /\ b[5] = f[5])[6]>>
+         ELSE <<e[3], f[6]>>
+OnExternalEntry(T, xi, r) == (CHOOSE e \in Of(T.entry, xi) : e[2] = r[2])[4]
+ExpTags(T, li, xi) ==
+  {<<EntryId(T, li, r[2]), DocFormStr(T, li, r[2], r[3]), r[5], r[6]>> : r \in Of(T.tag, li)}
+  \cup {<<ExtTarget(T, li, xi, r[2], r[3])[1], ExtTarget(T, li, xi, r[2], r[3])[2], r[5], r[6]>> :
+           r \in {r \in Of(T.tag, xi) : OnExternalEntry(T, xi, r)}}
+ExpProns(T, li, xi) ==
+  {<<EntryId(T, li, r[2]), DocFormStr(T, li, r[2], r[3]), r[5], r[6], r[7], r[8], r[9]>> : r \in Of(T.pron, li)}
+  \cup {<<ExtTarget(T, li, xi, r[2], r[3])[1], ExtTarget(T, li, xi, r[2], r[3])[2], r[5], r[6], r[7], r[8], r[9]>> :
+           r \in {r \in Of(T.pron, xi) : OnExternalEntry(T, xi, r)}}
+\* forms of base words: the base's forms plus those the extension adds to them
+ExpForms(T, li, xi) ==
+  {<<e[3], e[7]>> : e \in Of(T.entry, li)} \cup {<<EntryId(T, li, f[2]), f[6]>> : f \in Of(T.form, li)}
+  \cup {<<EntryId(T, xi, f[2]), f[6]>> : f \in {f \in Of(T.form, xi) : ~f[4] /\ OnExternalEntry(T, xi, f)}}
+\* senses of base words: the base's senses plus the new senses the extension hangs on them
+ExpSenses(T, li, xi) ==
+  {<<EntryId(T, li, s[2]), s[5]>> : s \in Of(T.sense, li)}
+  \cup {<<EntryId(T, xi, s[2]), s[5]>> : s \in {s \in Of(T.sense, xi) : ~s[4] /\ OnExternalEntry(T, xi, s)}}
+\* examples / counts on base senses incl. those on ExternalSense elements
+ExpSenseExamples(T, li, xi) ==
+  {<<SenseId(T, li, r[2], r[3]), r[5]>> : r \in Of(T.sex, li)}
+  \cup {<<SenseId(T, xi, r[2], r[3]), r[5]>> : r \in {r \in Of(T.sex, xi) : OnExternalEntry(T, xi, r)}}
+ExpCounts(T, li, xi) ==
+  {<<SenseId(T, li, r[2], r[3]), r[5], r[6]>> : r \in Of(T.count, li)}
+  \cup {<<SenseId(T, xi, r[2], r[3]), r[5], r[6]>> : r \in {r \in Of(T.count, xi) : OnExternalEntry(T, xi, r)}}
+\* examples on base synsets incl. those on ExternalSynset elements
+IsExtSyn(T, xi, yi) == (CHOOSE y \in Of(T.synset, xi) : y[2] = yi)[3]
+ExpSynsetExamples(T, li, xi) ==
+  {<<SynsetId(T, li, r[2]), r[4]>> : r \in Of(T.yex, li)}
+  \cup {<<SynsetId(T, xi, r[2]), r[4]>> : r \in {r \in Of(T.yex, xi) : IsExtSyn(T, xi, r[2])}}
+ExtensionFails(r) ==
+  IF r.xli < 0 THEN {} ELSE
+  LET T == r.src  li == r.li  xi == r.xli  A == r.xapi  o == r.spec IN
+    Cl(ObsTags(A, o) = ExpTags(T, li, xi), "ExtensionTags")
+    \cup Cl(ObsProns(A, o) = ExpProns(T, li, xi), "ExtensionPronunciations")
+    \cup Cl({<<f[2], f[4]>> : f \in Mine(A.aform, o)} = ExpForms(T, li, xi), "ExtensionForms")
+    \cup Cl({<<s[2], s[5]>> : s \in Mine(A.asense, o)} = ExpSenses(T, li, xi), "ExtensionSenses")
+    \cup Cl({<<x[2], x[4]>> : x \in Mine(A.asex, o)} = ExpSenseExamples(T, li, xi), "ExtensionSenseExamples")
+    \cup Cl({<<x[2], x[4], x[5]>> : x \in Mine(A.acount, o)} = ExpCounts(T, li, xi), "ExtensionCounts")
+    \cup Cl({<<x[2], x[4]>> : x \in Mine(A.ayex, o)} = ExpSynsetExamples(T, li, xi), "ExtensionSynsetExamples")
+    \* the extension's own new words and synsets are reported with their content
+    \cup Cl({w[3] : w \in Mine(A.aword, r.xspec)} = {e[3] : e \in {e \in Of(T.entry, xi) : ~e[4]}}, "ExtensionWords")
+    \cup Cl({y[3] : y \in Mine(A.asyn, r.xspec)} = {y[4] : y \in {y \in Of(T.synset, xi) : ~y[3]}}, "ExtensionSynsets")
 Fails(r) ==
   IF "timeout" \in DOMAIN r THEN {"Terminates"} ELSE
   IF r.st # "ok" THEN {"AddSucceeds"} ELSE
@@ -85,6 +148,7 @@ Fails(r) ==
     \cup Cl(FramesOK(T, li, A, o), "Frames") \cup Cl(SynsetsOK(T, li, A, o), "Synsets")
     \cup Cl(ProposedOK(T, li, A, o), "ProposedIli") \cup Cl(MembersOK(T, li, A, o), "Members")
     \cup Cl(SynsetExamplesOK(T, li, A, o), "SynsetExamples")
+    \cup ExtensionFails(r)
 Judge == LET r == Recs[i]  f == Fails(r) IN
   f = {} \/ PrintT(ToJson([k |-> "FAIL", id |-> r.id, c |-> f]))
 =============================================================================
